@@ -26,6 +26,12 @@ FAIL_HEAVY = {
     "hold": 0.3, "tree": 0.3, "glob": 0.3, "subdir_out": 0.3, "fail": 0.3, "dyn_out": 0.15,
 }
 
+OPT_HEAVY = {
+    "subplan": 0.5, "optional": 0.5, "amend": 0.3, "env": 0.15, "vol": 0.15, "resources": 0.1,
+    "hold": 0.2, "tree": 0.3, "glob": 0.2, "subdir_out": 0.4, "fail": 0.03, "dyn_out": 0.15,
+    "const_out": 0.1, "late_subplan": 0.1,
+}
+
 WORKLOADS = {
     # property: (quick sizes, thorough sizes) as dicts
     "C09": {"quick": {"gen": 70, "conflict": 60, "shapes": True}, "thorough": {"gen": 900, "conflict": 900, "shapes": True}},
@@ -34,6 +40,9 @@ WORKLOADS = {
     "C12": {"quick": {"gen": 110, "conflict": 0, "shapes": True, "features": HOLD_HEAVY}, "thorough": {"gen": 1500, "conflict": 0, "shapes": True, "features": HOLD_HEAVY}},
     "C15": {"quick": {"gen": 20, "conflict": 160, "shapes": False}, "thorough": {"gen": 200, "conflict": 3000, "shapes": True}},
     "C19": {"quick": {"gen": 110, "conflict": 40, "shapes": True, "features": FAIL_HEAVY}, "thorough": {"gen": 1500, "conflict": 400, "shapes": True, "features": FAIL_HEAVY}},
+    "C06": {"quick": {"gen": 130, "conflict": 0, "shapes": True, "features": None, "nphases": 5, "user_edits": True}, "thorough": {"gen": 1500, "conflict": 0, "shapes": True, "nphases": 6, "user_edits": True}},
+    "C07": {"quick": {"gen": 130, "conflict": 0, "shapes": True, "features": None, "nphases": 5, "user_edits": True}, "thorough": {"gen": 1500, "conflict": 0, "shapes": True, "nphases": 6, "user_edits": True}},
+    "C11": {"quick": {"gen": 130, "conflict": 0, "shapes": True, "features": OPT_HEAVY, "nphases": 4, "targets": True}, "thorough": {"gen": 1500, "conflict": 0, "shapes": True, "features": OPT_HEAVY, "nphases": 4, "targets": True}},
     "C03": {"quick": {"gen": 110, "conflict": 0, "shapes": True, "features": HOLD_HEAVY}, "thorough": {"gen": 1500, "conflict": 0, "shapes": True, "features": HOLD_HEAVY}},
 }
 
@@ -45,6 +54,9 @@ VACUITY = {
     "C15": {"rpc_reject": 30, "rpc_ok": 100},
     "C19": {"phase_end": 100},
     "C03": {"cmd_start": 200},
+    "C06": {"finalize_end": 100, "removed_files": 20, "write": 200},
+    "C07": {"finalize_end": 100, "removed_files": 20, "write": 200},
+    "C11": {"finalize_end": 100, "cmd_start": 200, "phase_end": 100},
 }
 
 ASSUMPTIONS = [
@@ -70,7 +82,8 @@ def main(argv=None):
                                                 {"njob": 2, "resources": "gpu:1,tpu:1", "keep_going": True}, {"njob": 1}])
         if wl.get("gen"):
             cases += engine_b.gen_cases(args.seed, wl["gen"], features=wl.get("features"),
-                                        watch_p=0.0)
+                                        watch_p=0.0, nphases=wl.get("nphases", 4),
+                                        user_edits=wl.get("user_edits", False), targets=wl.get("targets", False))
         if wl.get("conflict"):
             cases += engine_b.conflict_cases(args.seed, wl["conflict"])
         for c in cases[:3]:
@@ -83,6 +96,26 @@ def main(argv=None):
             "cases = hand-written shapes + seeded generated projects/histories + conflict-heavy plans; "
             "every commit/dispatch/command start/request end/phase end of every execution is one monitor evaluation"
         )
+        if pid == "C06":
+            # second half of the property: the `stepup clean` tool
+            from checks.cleantool import exec_clean_case
+            from checks.history import validate_rels
+            from harness.runner import pmap
+
+            ccases = [dict(c, seed=args.seed * 11 + i, nargs=4) for i, c in enumerate(cases[: (60 if args.tier == "quick" else 600)])]
+            rel_lines, replays = [], {}
+            for kind, r in pmap(exec_clean_case, ccases):
+                if kind == "err":
+                    report.machinery("clean harness crashed: " + r[:1500])
+                    continue
+                rel_lines.extend(r["rels"])
+                replays[r["tid"]] = r["replay"]
+            v = validate_rels(report, rel_lines) if rel_lines else None
+            if v:
+                report.add_verdicts(v["bad"], replays)
+                report.coverage["clean_tool_invocations_checked"] = v["cnt"].get("clean_tool", 0)
+                if v["cnt"].get("clean_tool", 0) < 100:
+                    report.machinery("vacuous run: too few clean tool invocations")
         rcs = {}
         for r in out["results"]:
             for phase_rcs in r["summary"]["rcs"]:
